@@ -53,6 +53,7 @@ type Result struct {
 	Stages      []Stage
 	TokLine     string
 	ParseLine   string
+	ParseLine0  string // parse with nil options (the wuffs-c path), single-file cases
 	Accepted    bool
 	C           []byte
 	NTokens     int
@@ -253,10 +254,16 @@ func runCase(c *Case, progress progressFunc) *Result {
 			return res
 		}
 		var file *a.File
-		if !runStage("gen.parse", res, progress, func() (err error) {
-			file, err = parse.Parse(tm, f.Name, tokens, nil)
-			return err
-		}) {
+		var perr error
+		parseOK := runStage("gen.parse", res, progress, func() error {
+			file, perr = parse.Parse(tm, f.Name, tokens, nil)
+			return perr
+		})
+		if c.Tie && len(c.Files) == 1 && res.Stages[len(res.Stages)-1].Status != "panic" {
+			// a single file: the map is fresh, so IDs are comparable with the model's
+			res.ParseLine0 = parseLine(tm, file, perr, f.Name)
+		}
+		if !parseOK {
 			return res
 		}
 		files = append(files, file)
